@@ -153,7 +153,12 @@ pub fn run_check(prop: &str, tier: &str) -> i32 {
         "C02" => {
             let s = suites::crash_suites(thorough);
             let plan = crashprops::CrashPlan { crash: true, layout_tag: "C10", nest: 0, reopen_cycles: 0, sector_tear: true, layout: false, probe_auto_ts: false, continue_after: true };
-            crashprops::crash_check(prop, s, &["C02", "C11"], plan, budget * 0.6, &mut report);
+            crashprops::crash_check(prop, s, &["C02", "C11"], plan, budget * 0.55, &mut report);
+            // acknowledged flushes on legacy-format devices with records at the block boundaries:
+            // an independent reader must find the live contents in the file at every acknowledgement
+            let edge: Vec<Suite> = suites::partition_suites(thorough).into_iter().filter(|s| s.name.starts_with("part-edge")).collect();
+            let plan = crashprops::CrashPlan { crash: false, layout_tag: "C02", nest: 0, reopen_cycles: 0, sector_tear: false, layout: true, probe_auto_ts: false, continue_after: false };
+            crashprops::crash_check(prop, edge, &["C02"], plan, budget * 0.08, &mut report);
             // one history with a >507-extent batch: torn multi-block journal writes
             bigbatch::run(&["C02", "C03"], &mut report);
             // flush acknowledgements racing the background flusher, every schedule within the bound
@@ -206,7 +211,16 @@ pub fn run_check(prop: &str, tier: &str) -> i32 {
             let progs = c08::programs(thorough);
             schedprops::run_programs(progs, bound, 4000, budget * 0.8, &schedprops::judge_linearizable, None, &["C08", "C07", "C14", "C20"], &mut report);
             // sequential histories of TTL-only rewrites on a full device: without concurrency StaleExtent is never admissible
-            seq_check(prop, tier, suites::full_ttl_suites(thorough), &["C08", "C01"], budget * 0.2, &mut report);
+            let mut seqs = suites::full_ttl_suites(thorough);
+            // legacy-format records at the block boundaries, values read back from the device (cache off)
+            for mut s in suites::partition_suites(thorough).into_iter().filter(|s| s.name == "part-edge-v1" || s.name == "part-edge-v2") {
+                s.cfg.cache = false;
+                s.log_io = false;
+                s.readback = true;
+                s.name = format!("{}-nocache", s.name);
+                seqs.push(s);
+            }
+            seq_check(prop, tier, seqs, &["C08", "C01"], budget * 0.2, &mut report);
             report.set("explanation", "controlled scheduler over application threads, the flush worker and the periodic coordinator of a real persistent store on 3-6 block devices; every read result is checked by linearization against the model (StaleExtent permitted only under a concurrent rewrite) and an I/O monitor fails the run if a device write intersects an extent a reader still holds");
         }
         "C17" => {
